@@ -44,6 +44,7 @@ type Exec struct {
 	spawnedRepeatedly map[*ast.FuncLit]bool
 	usedAfter         map[types.Object]bool
 	localAssigns      map[*types.Var][]ast.Expr
+	resultOverride    []Term
 }
 
 type localSig struct {
